@@ -608,7 +608,7 @@ class Interp:
         if isinstance(fn, BoundMethod):
             obj = fn.obj
             if isinstance(obj, SObj):
-                cm = self.module.class_member(obj.cls, fn.name)
+                cm = self.module.class_member(obj.cls, fn.name) or self.lib._class_member_any(self, obj.cls, fn.name)
                 if cm is not None and cm[0] == "method":
                     return self.call_repo(cm[2], cm[1], [obj] + args, kwargs, node, bound=True)
                 if obj.cls in self.lib.obj_models and fn.name in self.lib.obj_models[obj.cls]:
